@@ -395,7 +395,85 @@ def c01(sc, tier, seed):
     return v.finish(rule='TLC explores the socket read-loop model (Framing.tla) for 9 command streams with binary-unsafe arguments (empty, CR, LF, CRLF, NUL, 0xff, RESP-looking text as key, value, field, member, element) under every chunking with at most 2 cuts, checks InOrder and SplitIndependent on the model and prints each chunking; every single cut and (quick: 1500 seeded; thorough: all) double cuts are written to a real socket and the raw reply bytes compared with the unsplit run; plus pipelines of depth 1..16 in one write and 9000/70000-byte arguments cut around the 8 KiB read-buffer boundaries. Non-trivial = script with at least one cut.')
 
 
-CHECKS = {'C01': c01, 'C02': c02, 'C18': c18, 'C15': c15, 'C08': c08, 'C14': c14, 'C10': c10, 'C09': c09, 'C07': c07, 'C06': c06, 'C03': c03, 'C04': c04, 'C05': c05}
+def c13(sc, tier, seed):
+    """Hostile input: TLC-generated command vectors / byte strings sent to children; liveness and one-reply checks."""
+    import random as _r
+    v = Verdict('C13', tier, seed)
+    exe = build_harness(sc)
+    devs = open_devs()
+    out, st = run_tlc(sc, 'Inputs', mc_cfg('Inputs', devs), timeout=900)
+    require_tlc_clean(st, 'Inputs')
+    v.add_tlc('Inputs', st)
+    cmdcases, special = [], []
+    for op in tlc_json_lines(out):
+        if op.get('hostile'):
+            cmdcases.append({'cmd': op['cmd'], 'pre': op['pre'], 'known': op['known']})
+        elif 'rawcases' in op:
+            special += [{'raw': r['raw'], 'reply': r['reply'], 'known': r['known']} for r in op['rawcases']]
+        elif 'specials' in op:
+            special += [{'seq': sp['seq'], 'known': sp['known']} for sp in op['specials']]
+    if not cmdcases or not special:
+        raise Inconclusive('Inputs produced no cases')
+    total = len(cmdcases)
+    if tier == 'quick':
+        rnd = _r.Random(seed)
+        keep = [c for c in cmdcases if c['known'] != 'none']
+        rest = [c for c in cmdcases if c['known'] == 'none']
+        # every command name x arity at least once, then a seeded sample
+        seen, must, other = set(), [], []
+        rnd.shuffle(rest)
+        for c in rest:
+            k = (b2s(c['cmd'][0]), len(c['cmd']), c['pre']['ents'][0]['v']['ty'] if c['pre']['ents'] else 'none')
+            if k not in seen:
+                seen.add(k)
+                must.append(c)
+            else:
+                other.append(c)
+        cmdcases = keep + must + other[:max(0, 12000 - len(must))]
+    cases = cmdcases + special
+    for i, c in enumerate(cases):
+        c['id'] = i
+    cf, rf = sc.path('ho-cases.jsonl'), sc.path('ho-out.jsonl')
+    with open(cf, 'w') as f:
+        for c in cases:
+            f.write(json.dumps(c, separators=(',', ':')) + '\n')
+    port = int(os.environ.get('VERIF_PORT', 21000)) + 1500
+    p = subprocess.run([exe, 'hostile', '-cases', cf, '-out', rf, '-workers', str(NCPU), '-port', str(port)], stdout=subprocess.PIPE, stderr=subprocess.PIPE, text=True)
+    if p.returncode != 0:
+        raise Inconclusive('hostile engine failed: ' + p.stderr[-2000:])
+    results = {r['id']: r for r in (json.loads(l) for l in open(rf))}
+    nontriv = set()
+    for c in cases:
+        r = results.get(c['id'])
+        v.cov['evaluations'] += 1
+        what = cmd_text(c['cmd']) if 'cmd' in c else (repr(bytes(c['raw']))[:80] if 'raw' in c else ' ; '.join(cmd_text(x) for x in c['seq']))
+        if r is None or r['status'] == 'error':
+            v.inconclusive.append('hostile case %d: %s' % (c['id'], (r or {}).get('detail')))
+            continue
+        v.cov['traces_validated_against_impl'] += 1
+        nontriv.add(what)
+        if r['status'] == 'ok':
+            if c['known'] != 'none':
+                pass  # listed finding did not show on this input (stale finding): not an alarm
+            continue
+        if c['known'] != 'none':
+            v.record_known(c['known'], what + ' :: ' + (r.get('detail') or '')[:200])
+            continue
+        if len(v.violations) < 25:
+            v.record_violation({k: c[k] for k in c if k != 'id'}, {'fail': {'status': r['status'], 'cmd': what, 'detail': (r.get('detail') or '')[:500]}, 'stderr': (r.get('stderr') or '')[:1500]}, engine='hostile')
+        else:
+            v.violations.append('(more)')
+    v.cov['distinct_nontrivial'] = len(nontriv)
+    v.cov['engines']['hostile'] = {'command_vectors_enumerated_by_tlc': total, 'command_vectors_sent': len(cmdcases), 'byte_level_and_sequence_cases': len(special)}
+    v.cov['samples'] += [cmd_text(cmdcases[0]['cmd']), repr(bytes(special[0]['raw'])) if 'raw' in special[0] else str(special[0])[:100]]
+    v.assumptions = ['children run under a 6 GB address-space limit so that an absurd allocation kills the child, not the machine; allocations of 2^31 / 2^32 units are not part of the claim',
+                     'blocking commands (a timeout of 0 legitimately never answers) are covered by C11/C12, not here',
+                     'reply content is not judged here (C02-C07 do that): exactly one well-formed reply within 2 s, process alive, a second connection answers PING within 1 s']
+    return v.finish(level='fault_enumeration', rule='TLC enumerates (Inputs.tla) every command name of the dispatcher x argument vectors of length 0..4 over extreme argument classes (-2^63, 2^63-1, 2^31, 2^32, -1, 0, 1, empty, nan, inf, text, a key) x the type of that key (130k vectors; quick: every (name, arity, key type) at least once + seeded sample), plus 16 RESP type bytes x 10 declared lengths at top level / as array element / as argument, every truncation of a valid command, blank lines, inline text, nested aggregates as arguments, and keyword / multi-step sequences (huge COUNTs, MULTI+CLIENT LIST+EXEC, extreme TTLs and indexes); each is sent to a child; distinct = distinct inputs.',
+                    exhaustive=(tier != 'quick'))
+
+
+CHECKS = {'C01': c01, 'C13': c13, 'C02': c02, 'C18': c18, 'C15': c15, 'C08': c08, 'C14': c14, 'C10': c10, 'C09': c09, 'C07': c07, 'C06': c06, 'C03': c03, 'C04': c04, 'C05': c05}
 
 
 def replay_path(path):
